@@ -362,13 +362,6 @@ Example sqlite_edit_breaks_too :
   n = 1 /\ tie_holds sqlite_skeletons "RequeueDead" sq' pg_RequeueDead = false.
 Proof. vm_compute. split; reflexivity. Qed.
 
-Example unchanged_ties_hold :
-  forallb (fun t => match t with (n, a, b) =>
-    match assoc a sqlite_skeletons, assoc b pg_skeletons with
-    | Some sa, Some sb => tie_holds sqlite_skeletons n sa sb
-    | _, _ => false end end) tied = true.
-Proof. vm_compute. reflexivity. Qed.
-
 (** a listed difference that does not occur is an error, not a licence *)
 Example unused_difference_is_reported :
   snd (sqlite_side sqlite_skeletons "LookupMessages" sqlite_LookupMessages) = []
